@@ -217,7 +217,7 @@ func buildSerModel(c *Ctx) *serModel {
 					// `nSkips > 0 && tag != TagNop` is infeasible for these tags); NOP itself is analysed without pending run
 					flushed := false
 					for _, ef := range sp.Effects {
-						if ef.Kind == "store" && strings.HasSuffix(ef.Base, ".Tape") && strings.Contains(ef.Val.String(), "5620492334958379008") {
+						if ef.Kind == "store" && strings.HasSuffix(ef.Base, ".Tape") && isNopAff(ef.Val) {
 							flushed = true
 						}
 					}
@@ -251,7 +251,7 @@ func buildSerModel(c *Ctx) *serModel {
 			}
 			for _, ef := range sp.Effects {
 				if ef.Kind == "store" && strings.HasSuffix(ef.Base, ".Tape") && ef.Index != nil {
-					if strings.Contains(ef.Val.String(), "5620492334958379008") || ef.Val.IsConst() && ef.Val.K>>56 == 'N' {
+					if isNopAff(ef.Val) {
 						continue // flushed NOP word
 					}
 					r.stores = append(r.stores, [2]string{ef.Index.String(), ef.Val.String()})
@@ -274,6 +274,8 @@ func buildSerModel(c *Ctx) *serModel {
 		}
 		c.Unit("serialize_loop_paths", len(m.writers))
 		c.Unit("deserialize_loop_paths", len(m.readers))
+		c.MinCount("Serialize tag paths", len(m.writers), 60)
+		c.MinCount("Deserialize tag paths (with and without a pending NOP run)", len(m.readers), 30)
 		return m
 	})
 	return v.(*serModel)
@@ -585,4 +587,12 @@ func ruleCounts(c *Ctx) {
 		return true
 	})
 	c.MinCount("block writes in Serialize", n, 4)
+}
+
+// isNopAff recognises a tape word with tag 'N': the symbolic form (TagNop<<56)|payload or, with a known payload, its value.
+func isNopAff(v Aff) bool {
+	if v.IsConst() {
+		return uint64(v.K)>>56 == 'N'
+	}
+	return strings.Contains(v.String(), "5620492334958379008")
 }
